@@ -307,7 +307,9 @@ impl RScn
         let mut args = vec![if use_run { "run" } else if is_build { "build" } else { "clean" }];
         if goal != "" { args.push(goal); }
         let (fo, fe) = (self.xlog.with_extension("stdout"), self.xlog.with_extension("stderr"));
-        let stdout = if sink == 1 { std::fs::OpenOptions::new().write(true).open("/dev/full").expect("/dev/full") } else { std::fs::File::create(&fo).expect("stdout file") };
+        let full = if sink == 1 { std::fs::OpenOptions::new().write(true).open("/dev/full").ok() } else { None };
+        let sink = if full.is_some() { 1 } else { 0 };
+        let stdout = match full { Some(f) => f, None => std::fs::File::create(&fo).expect("stdout file") };
         let mut child = Command::new(&self.bin).args(&args).current_dir(&self.dir).env("RULER_XLOG", &self.xlog)
             .stdin(std::process::Stdio::null()).stdout(stdout).stderr(std::fs::File::create(&fe).expect("stderr file")).spawn().expect("run ruler");
         /* an invocation that does not return within 30 s (they take milliseconds) is ended and recorded as hanging */
